@@ -23,7 +23,7 @@ RULE = ('trees of 0-4 changes x 0-5 files are built through the public API; '
         'second call changes nothing. Non-trivial = >= 1 analysable diff '
         'with >= 1 change line; distinct = fingerprint of the tree spec.')
 FLOOR = {'quick': 3000, 'thorough': 80000}
-REQUIRED_REACH = ['DiffXFileSection.generate_stats', 'DiffX.generate_stats']
+REQUIRED_REACH = ['generate_stats']
 REQUIRED_COUNTERS = ['files_analysable', 'files_not_analysable',
                      'idempotence_checked', 'diff_encoding:utf-16',
                      'diff_encoding:cp037', 'diff_encoding:none']
